@@ -143,7 +143,10 @@ def revolve(
     single += np.tile(np.arange(per), (2, 1)).T.reshape((-1, 1))
     # remove any zero-area triangle
     # this covers many cases without having to think too much
-    single = single[triangles.area(vertices[single]) > tol.merge]
+    # (zero relative to the other triangles of the slice: an absolute
+    # threshold also removes the real triangles of a small shape)
+    area = triangles.area(vertices[single])
+    single = single[area > tol.merge * max(area.max(), np.finfo(np.float64).tiny)]
 
     # how much to offset each slice
     # note arange multiplied by vertex stride
